@@ -409,7 +409,8 @@ class Poly:
         if isinstance(e, Poly):
             n = e.as_number()
             if n is None:
-                return Poly.atom(("pow", self, e))
+                base, ex = _pow_canon(self, e)
+                return Poly.atom(("pow", base, ex))
             e = n
         if isinstance(e, float):
             e = Fr(repr(e))
@@ -727,6 +728,41 @@ def _mono_nonneg(m):
     return True
 
 
+# parity of the grid size N in the world being analysed (set by harness.new_interp; None = unknown)
+N_PARITY = [None]
+
+
+def _wavenumber_range(op, lhs, rhs):
+    """|k| <= N//2 on every axis of the stored spectrum (k >= 0 on the halved one): `k <= c`, `|k| <= c`, `k < c` with a
+    bound at or beyond the largest stored wavenumber is true for every mode"""
+    ats = lhs.atoms()
+    if len(lhs.t) != 1 or len(ats) != 1:
+        return None
+    a = next(iter(ats))
+    if lhs != Poly.atom(a):
+        return None
+    inner = a
+    if a[0] == "abs":
+        ia = list(a[1].atoms())
+        if len(ia) != 1 or a[1] != Poly.atom(ia[0]):
+            return None
+        inner = ia[0]
+    if inner[0] not in ("k", "k1"):
+        return None
+    if any(x[0] == "s" and x[1] in ("Nold", "Nnew") for x in rhs.all_atoms()):
+        return None
+    slack = rhs - (Poly.sym("N") - N_PARITY[0]) / 2  # bound minus largest stored wavenumber
+    num = slack.as_number()
+    sg = _linear_sign(slack)
+    if num is not None:
+        ok = num >= 0 if op == "le" else num > 0
+    elif sg is not None:
+        ok = sg[1] if op == "le" else sg[0]
+    else:
+        ok = False
+    return Poly.const(1) if ok else None
+
+
 # standing assumptions on sizes: grids have at least 3 points, contour integrals at least one node
 ASSUME_MIN = {("s", "N"): 3, ("s", "Nold"): 3, ("s", "Nnew"): 3, ("s", "M"): 1, ("s", "n"): 0}
 
@@ -830,6 +866,83 @@ def rpow(p, e):
     if fr:
         out = out * Poly.atom(("R", q, fr.denominator), fr.numerator)
     return out
+
+
+def _pow_canon(base, e):
+    """(b, e') with b**e' == base**e for a symbolic exponent e: perfect powers and roots of NON-NEGATIVE bases are moved
+    into the exponent, (b^n)^e = b^(n e), (q^(1/d))^e = q^(e/d), so that |k|^(-p/2) and (|k|^2)^(-p/4) coincide"""
+    from math import gcd
+
+    for _ in range(8):
+        if len(base.t) == 1:
+            ((m, c),) = base.t.items()
+            if c.im != 0 or c.re <= 0 or not m:
+                break
+            # a single root atom: R(q, den)^x
+            if c == ONE and len(m) == 1 and m[0][0][0] == "R":
+                a, x = m[0]
+                if _atom_nonneg(a):
+                    base, e = a[1], e * Fr(x, a[2])
+                    continue
+            if not all(_atom_nonneg(a) for a, _ in m):
+                break
+            rs = [a for a, _ in m if a[0] == "R"]
+            if rs:
+                # roots inside a non-negative monomial: (c * q^(x/d) * ...)^e = (c^d * q^x * ...)^(e/d)
+                den = 1
+                for a in rs:
+                    den = den * a[2] // gcd(den, a[2])
+                base, e = base**den, e * Fr(1, den)
+                continue
+            g = 0
+            for _, x in m:
+                g = gcd(g, abs(x))
+            while g > 1:
+                r = _rational_root(c.re, g)
+                if r is not None:
+                    break
+                g = max(d for d in range(1, g) if g % d == 0)
+            if g <= 1:
+                break
+            base = Poly({tuple((a, x // g) for a, x in m): GQ(r)})
+            e = e * g
+            continue
+        b, n = perfect_root(base)
+        if n > 1 and poly_nonneg(b):
+            base, e = b, e * n
+            continue
+        break
+    return base, e
+
+
+def _rational_root(q, n):
+    """the positive rational r with r**n == q, or None"""
+    q = Fr(q)
+
+    def iroot(v):
+        if v < 0:
+            return None
+        r = round(v ** (1.0 / n)) if v < 2**52 else None
+        if r is None:
+            lo, hi = 0, 1
+            while hi**n < v:
+                hi *= 2
+            while lo < hi:
+                mid = (lo + hi) // 2
+                if mid**n < v:
+                    lo = mid + 1
+                else:
+                    hi = mid
+            r = lo
+        for c in (r - 1, r, r + 1):
+            if c >= 0 and c**n == v:
+                return c
+        return None
+
+    a, b = iroot(q.numerator), iroot(q.denominator)
+    if a is None or b is None or b == 0:
+        return None
+    return Fr(a, b)
 
 
 def perfect_root(q):
@@ -1066,6 +1179,10 @@ def ind(op, lhs, rhs):
         if c0_.im == 0 and all(_atom_pos(a) for a, _ in m0):
             v = {"le": c0_.re <= 0, "lt": c0_.re < 0, "eq": False}[op]
             return Poly.const(1 if v else 0)
+    if op in ("le", "lt") and N_PARITY[0] is not None:
+        r_ = _wavenumber_range(op, lhs, rhs)
+        if r_ is not None:
+            return r_
     sg = _linear_sign(d)
     if sg is not None:
         lo_pos, lo_nonneg, hi_neg, hi_nonpos = sg
